@@ -43,6 +43,6 @@ class IntervalItem(Item):
                 lower, upper = upper, lower
             return lower <= index <= upper
 
-        if isinstance(self.interval, tuple):
-            return applies(self.interval)
+        if isinstance(self.interval, tuple) or not isinstance(self.interval[0], (list, tuple)):
+            return applies(self.interval)  # a single interval (a YAML round trip turns the tuple into a list)
         return any(applies(i) for i in self.interval)
